@@ -9,18 +9,22 @@ SPECFUNS = {}     # name -> SpecFun
 LEMMAS = []       # Lemma
 CANARIES = []
 TRACE = {}        # 'elem': Tup type of trace events when the effect-trace mechanism is used
+SPEC_TYPES = {}   # names usable as quantifier domains in spec expressions
 EXTCONSTS = {}    # 'rdflib.RDF.type' -> (Ty, z3 const)
 
 class Schema:
-    def __init__(self, family, classes, fields, eq_fields=None, invariant=None):
+    def __init__(self, family, classes, fields, eq_fields=None, invariant=None, box=False, eq_inline=False, funfields=None):
+        self.funfields = funfields or {}      # attr -> [(cond over self, method name)]: instance attributes holding bound methods
         self.family = family
         self.classes = list(classes)          # 'module:Class' possible dynamic classes, index = class tag
         self.fields = dict(fields)            # field name -> Ty
         self.eq_fields = eq_fields            # fields compared by __eq__ (with dynamic class) or None = identity
         self.invariant = invariant or []      # spec expressions over `self` assumed for every allocated object
+        self.box = box                        # a shared mutable container cell: single field 'val'
+        self.eq_inline = eq_inline            # == is the class's own __eq__, inlined from the real source
 
-def schema(family, classes, fields, eq_fields=None, invariant=None):
-    s = Schema(family, classes, fields, eq_fields, invariant)
+def schema(family, classes, fields, eq_fields=None, invariant=None, box=False, eq_inline=False, funfields=None):
+    s = Schema(family, classes, fields, eq_fields, invariant, box, eq_inline, funfields)
     SCHEMAS[family] = s
     for c in s.classes:
         CLASS_FAMILY[c] = family
@@ -86,7 +90,7 @@ def lemma(name, vars, hyps, goal, **kw):
     return l
 
 def reset():
-    SCHEMAS.clear(); CLASS_FAMILY.clear(); CONTRACTS.clear(); SPECFUNS.clear(); del LEMMAS[:]; del CANARIES[:]; TRACE.clear(); EXTCONSTS.clear()
+    SCHEMAS.clear(); CLASS_FAMILY.clear(); CONTRACTS.clear(); SPECFUNS.clear(); del LEMMAS[:]; del CANARIES[:]; TRACE.clear(); EXTCONSTS.clear(); SPEC_TYPES.clear()
 
 def trace_events(tup_ty):
     TRACE["elem"] = tup_ty
@@ -94,3 +98,11 @@ def trace_events(tup_ty):
 def extconst(name, ty):
     import z3 as _z3
     EXTCONSTS[name] = (ty, _z3.Const("ext!" + name.replace(".", "_"), T.sort_of(ty)))
+
+def box(name, ty):
+    """A heap cell holding one container that several objects reference (aliasing made explicit)."""
+    return schema(name, [], {"val": ty}, box=True)
+
+def spectype(name, ty):
+    SPEC_TYPES[name] = ty
+    return ty
